@@ -703,6 +703,22 @@ bool vh::run_case(std::string const& op, Toks& in, Out& impl, Out& ref)
         std::free(heap);
         return true;
     }
+    if (op == "strtod") {
+        // etl::strtod / strtof / atof on a C string whose terminator is the LAST byte of an exact-size heap buffer
+        auto cs  = in.list();
+        auto off = static_cast<std::size_t>(in.num());
+        if (cs.empty() || off >= cs.size() || cs.back() != 0) { return false; }
+        char* heap = static_cast<char*>(std::malloc(cs.size()));
+        for (std::size_t i = 0; i < cs.size(); ++i) { heap[i] = static_cast<char>(cs[i]); }
+        char const* last = nullptr;
+        g_sink += static_cast<long long>(etl::strtod(heap + off, &last));
+        char const* lastf = nullptr;
+        g_sink += static_cast<long long>(etl::strtof(heap + off, &lastf)) + static_cast<long long>(etl::atof(heap + off));
+        impl.tok("ok").num(last - (heap + off));
+        if (lastf != last) { impl.tok("strtof-end").num(lastf - (heap + off)); }
+        std::free(heap);
+        return true;
+    }
     if (op == "fromfloat") {
         // from_floating_point into an EXACT-SIZE heap buffer of n characters: a store past the span is an ASan report
         auto whole = static_cast<double>(in.num());
